@@ -14,7 +14,7 @@ for ``BaseTransform`` itself a record of the abstract methods, ``deriv_inverse``
 The vocabulary is deliberately small: straight-line code (``Assign``, ``AugAssign``,
 ``Return``, ``With`` around it, ``if <guard>: raise``, ``if self.<flag>: v = ...``),
 arithmetic ``+ - * / **`` (literal natural exponent -> ``npow``, anything else -> ``Elem.rpow``),
-``np.log/exp/sqrt/power/ones/zeros/array/sign/isinf/any``, calls of sibling methods.
+``np.log/exp/sqrt/power/ones/zeros/array/size/sign/isinf/any``, calls of sibling methods.
 Anything else raises ``Untranslatable`` (reported by the runner as a broken obligation).
 
 Every number, sign, operator and operand order of the generated text comes from the AST;
@@ -245,6 +245,10 @@ class MethodTranslator:
                 return lit(0), P_ATOM
             if name == "array" and len(args) == 1 and isinstance(args[0], ast.Constant):
                 return lit(args[0].value, node), P_ATOM
+            if name == "size" and len(args) == 1 and isinstance(args[0], ast.Name) and args[0].id in self.params:
+                # np.size(x): number of elements of the argument (1 for a scalar), same quantity as x.size
+                self.uses_size = True
+                return f"{_ident(args[0].id)}_size", P_ATOM
             if name == "sign" and len(args) == 1:
                 return f"HasInf.sign {self.atom(args[0])}", 90
             raise Untranslatable(f"numpy call {ast.unparse(node)!r} ({_where(node)})")
